@@ -1,12 +1,446 @@
 package node
 
 import (
+	"context"
+	"fmt"
 	"math/rand"
+	"os"
+	"path/filepath"
+	"strings"
+	"time"
+
+	"github.com/lindb/common/pkg/ltoml"
+	protoMetricsV1 "github.com/lindb/common/proto/gen/v1/linmetrics"
+
+	"github.com/lindb/lindb/config"
+	"github.com/lindb/lindb/kv"
+	"github.com/lindb/lindb/kv/table"
+	"github.com/lindb/lindb/kv/version"
+	"github.com/lindb/lindb/models"
+	"github.com/lindb/lindb/pkg/compress"
+	"github.com/lindb/lindb/replica"
+	"github.com/lindb/lindb/tsdb"
 
 	"verifsim/core"
+	"verifsim/h/rows"
+	"verifsim/simrt"
 )
 
-func genC07(rng *rand.Rand, tier string) *core.Plan {
-	return &core.Plan{Harness: "node", Prop: "C07", Cfg: map[string]int{}}
+// ---- C07: node crash recovery loses no logged write, never replays a persisted one -------------------
+//
+// A real storage node without its network: tsdb engine, the real write-ahead-log manager with one
+// partition (leader = this node) and its real local replicator, the engine's real flush checker. The
+// harness appends messages to the log (as the write handler does), asks for flushes (as the flush checker's
+// timer / the flush API does), runs the log's housekeeping (Sync + GC), shuts down cleanly or kills the
+// process at a tape-chosen point: a file-system operation of any kv store, a function entry of the queue,
+// replica, tsdb, index or kv packages (weighted towards commit / acknowledge), or while idle. After every
+// restart (real recovery of the log manager) and catch-up every logged cell is read back through the real
+// query pipeline.
+//
+// Every message writes 1 into 1-3 cells (series, slot) of a sum field that no other message touches:
+// a cell reads 1 = applied once, nothing = lost, 2 = applied twice.
+
+type c07msg struct {
+	cells []int
+	acked bool // WriteLog returned before the process died
 }
-func runC07(c *core.RunCtx) {}
+
+type c07 struct {
+	c      *core.RunCtx
+	sim    *simrt.Sim
+	db     string
+	msgs   []*c07msg
+	ncells int
+	nser   int
+
+	// incarnation state
+	inc     int
+	dead    bool
+	node    *Node
+	walMgr  replica.WriteAheadLogManager
+	part    replica.Partition
+	cancel  context.CancelFunc
+	armed   bool
+	crashFS float64
+	crashY  float64
+}
+
+const c07Leader = models.NodeID(1)
+
+func genC07(rng *rand.Rand, tier string) *core.Plan {
+	p := &core.Plan{Harness: "node", Prop: "C07", Cfg: map[string]int{}}
+	p.Cfg["preempt_pm"] = []int{0, 2, 10, 30}[rng.Intn(4)]
+	p.Cfg["switch_pm"] = []int{50, 300, 600}[rng.Intn(3)]
+	p.Cfg["max_steps"] = 6000000
+	p.Cfg["procs"] = rng.Intn(2)
+	p.Cfg["nseries"] = 2 + rng.Intn(4)
+	p.Cfg["crash_fs_pm"] = []int{0, 5, 20, 60}[rng.Intn(4)]  // per file-system operation, while armed
+	p.Cfg["crash_y_pm10"] = []int{0, 2, 10, 40}[rng.Intn(4)] // per 10000 function entries, while armed
+	n := 5 + rng.Intn(12)
+	for i := 0; i < n; i++ {
+		switch r := rng.Intn(100); {
+		case r < 40:
+			p.Ops = append(p.Ops, core.Op{K: "append", A: int64(1 + rng.Intn(3)), B: int64(1 + rng.Intn(3))}) // A messages of B rows
+		case r < 60:
+			p.Ops = append(p.Ops, core.Op{K: "flush"}) // request a flush job, do not wait
+		case r < 68:
+			p.Ops = append(p.Ops, core.Op{K: "flushwait"})
+		case r < 76:
+			p.Ops = append(p.Ops, core.Op{K: "gc"})
+		case r < 84:
+			p.Ops = append(p.Ops, core.Op{K: "tick", A: int64(1 + rng.Intn(5))}) // let background work run
+		case r < 92:
+			p.Ops = append(p.Ops, core.Op{K: "check"})
+		default:
+			p.Ops = append(p.Ops, core.Op{K: "restart"}) // clean shutdown + start
+		}
+	}
+	p.Ops = append(p.Ops, core.Op{K: "flushwait"}, core.Op{K: "gc"}, core.Op{K: "append", A: 1, B: 1}, core.Op{K: "check"})
+	return p
+}
+
+func (h *c07) cellSeries(n int) string { return fmt.Sprintf("s%02d", n%h.nser) }
+
+// message builds the log message (snappy block of flat metric rows) of the next cells.
+func (h *c07) message(nrows int) ([]byte, *c07msg, error) {
+	m := &c07msg{}
+	w := compress.NewSnappyWriter()
+	for i := 0; i < nrows; i++ {
+		n := h.ncells
+		h.ncells++
+		m.cells = append(m.cells, n)
+		blk, err := rows.Block(rows.Point{Name: "m", Tags: map[string]string{"id": h.cellSeries(n), "host": "h" + fmt.Sprint(n%2)},
+			Timestamp: Jan1 + int64(n)*10000 + int64(n%3)*3000,
+			Fields:    []rows.Field{{Name: "fsum", Type: protoMetricsV1.SimpleFieldType_DELTA_SUM, Value: 1}}})
+		if err != nil {
+			return nil, nil, err
+		}
+		if _, err := w.Write(blk); err != nil {
+			return nil, nil, err
+		}
+	}
+	if err := w.Close(); err != nil {
+		return nil, nil, err
+	}
+	return append([]byte(nil), w.Bytes()...), m, nil
+}
+
+// start opens engine and log manager on the directory and runs the real recovery.
+func (h *c07) start(first bool) bool {
+	c := h.c
+	tsdb.VerifResetPoolGauges(h.db) // process-wide gauges: a new process starts at zero
+	n, err := Start(c, c.Dir)
+	if err != nil {
+		c.Violate("C07/reopen-failed", "engine start: %v", err)
+		return false
+	}
+	h.node = n
+	if first {
+		if err := n.CreateDB(h.db, 1); err != nil {
+			c.Anomaly("create db: %v", err)
+			return false
+		}
+	}
+	ctx, cancel := context.WithCancel(context.Background())
+	h.cancel = cancel
+	wcfg := config.WAL{Dir: filepath.Join(c.Dir, "wal"), PageSize: ltoml.Size(1 << 20), RemoveTaskInterval: ltoml.Duration(time.Hour)}
+	h.walMgr = replica.NewWriteAheadLogManager(ctx, wcfg, c07Leader, n.Engine, nil, nil)
+	if err := h.walMgr.Recovery(); err != nil {
+		c.Violate("C07/reopen-failed", "log recovery: %v", err)
+		return false
+	}
+	p, err := h.walMgr.GetOrCreateLog(h.db).GetOrCreatePartition(0, Jan1, c07Leader)
+	if err != nil {
+		c.Violate("C07/reopen-failed", "partition: %v", err)
+		return false
+	}
+	if err := p.BuildReplicaForLeader(c07Leader, []models.NodeID{c07Leader}); err != nil {
+		c.Violate("C07/reopen-failed", "build replica: %v", err)
+		return false
+	}
+	h.part = p
+	if !first {
+		// nothing was flushed since the start: the log's acknowledged position must not be ahead of the
+		// sequence stored with the flushed data
+		rep := replica.VerifReplicators(p)[int(c07Leader)]
+		persisted := h.persisted()
+		if rep != nil && rep.AckIndex() > persisted {
+			c.Violate("C07/ack-ahead-of-stored-sequence", "after recovery the log is acknowledged up to %d, the sequence stored with the flushed data is %d", rep.AckIndex(), persisted)
+			return false
+		}
+	}
+	return true
+}
+
+func (h *c07) family() tsdb.DataFamily {
+	shard, ok := h.node.Engine.GetShard(h.db, 0)
+	if !ok {
+		return nil
+	}
+	f, err := shard.GetOrCrateDataFamily(Jan1)
+	if err != nil {
+		return nil
+	}
+	return f
+}
+
+func (h *c07) persisted() int64 {
+	f := h.family()
+	if f == nil {
+		return -1
+	}
+	if s, ok := f.GetState().AckSequences[int32(c07Leader)]; ok {
+		return s
+	}
+	return -1
+}
+
+func (h *c07) applied() int64 {
+	f := h.family()
+	if f == nil {
+		return -1
+	}
+	if s, ok := f.GetState().ReplicaSequences[int32(c07Leader)]; ok {
+		return s
+	}
+	return -1
+}
+
+// catchUp waits until the local replicator has applied every appended message.
+func (h *c07) catchUp() bool {
+	log := replica.VerifPartitionLog(h.part)
+	for i := 0; i < 3000 && !h.dead; i++ {
+		appended := log.Queue().AppendedSeq()
+		rep := replica.VerifReplicators(h.part)[int(c07Leader)]
+		if appended < 0 || (rep != nil && rep.Pending() == 0 && h.applied() >= appended) {
+			return true
+		}
+		simrt.Sleep(time.Millisecond)
+	}
+	return false
+}
+
+func (h *c07) waitFlush() {
+	for i := 0; i < 3000 && !h.dead; i++ {
+		if tsdb.VerifFlushInFlight(h.node.Engine) == 0 {
+			return
+		}
+		simrt.Sleep(time.Millisecond)
+	}
+}
+
+// check reads every cell back through the query pipeline.
+func (h *c07) check(when string) {
+	c := h.c
+	if !h.catchUp() {
+		if !h.dead {
+			c.Anomaly("%s: the local replicator did not catch up", when)
+		}
+		return
+	}
+	if len(h.msgs) == 0 {
+		return
+	}
+	armed := h.armed
+	h.armed = false // the read-back is the oracle, not the system under test
+	defer func() { h.armed = armed }()
+	all := [][]int{{0}}
+	c.Sim.Event("  check %s at %v", when, c.Sim.Elapsed())
+	rs, err := h.node.Query(h.db, "select fsum from m where time>='2000-01-01 00:00:00' and time<='2000-01-01 00:59:59' group by id,time(10s)", Layout{Leaves: all})
+	c.Oracle()
+	got := map[int]float64{}
+	if err != nil {
+		if !strings.Contains(err.Error(), "not found") {
+			if os.Getenv("VERIF_TRACE") != "" {
+				c.Sim.Event("  at %v tasks: %s", c.Sim.Elapsed(), c.Sim.TaskDump())
+			}
+			c.Violate("C07/query-failed", "%s: %v", when, err)
+			return
+		}
+	} else {
+		for _, s := range rs.Series {
+			for ts, v := range s.Fields["fsum"] {
+				n := int((ts - Jan1) / 10000)
+				if n < 0 || n >= h.ncells || h.cellSeries(n) != s.Tags["id"] {
+					c.Violate("C07/unknown-cell", "%s: series %v has value %v at slot %d which no message wrote", when, s.Tags, v, n)
+					return
+				}
+				got[n] = v
+			}
+		}
+	}
+	if os.Getenv("VERIF_TRACE") != "" {
+		c.Sim.Event("  read back %d cells of %d: %v; applied=%d persisted=%d appended=%d", len(got), h.ncells, got, h.applied(), h.persisted(), replica.VerifPartitionLog(h.part).Queue().AppendedSeq())
+		if rs != nil {
+			for _, s := range rs.Series {
+				c.Sim.Event("  series %v: %v", s.Tags, s.Fields["fsum"])
+			}
+		}
+		rs2, err2 := h.node.Query(h.db, "select fsum from m where time>='2000-01-01 00:00:00' and time<='2000-01-01 00:59:59' group by id", Layout{Leaves: all})
+		if rs2 != nil {
+			for _, s := range rs2.Series {
+				c.Sim.Event("  (no time grouping) series %v: %v", s.Tags, s.Fields["fsum"])
+			}
+		}
+		c.Sim.Event("  (no time grouping) err=%v; family state %+v", err2, h.family().GetState())
+		(&run{c: c, n: h.node, db: h.db, shards: 1}).dumpIndex()
+	}
+	for i, m := range h.msgs {
+		for _, n := range m.cells {
+			v, ok := got[n]
+			switch {
+			case ok && v > 1:
+				c.Violate("C07/applied-twice", "%s: message %d (cell %d, series %s) reads %v: it was applied %v times", when, i, n, h.cellSeries(n), v, v)
+				return
+			case !ok && m.acked:
+				c.Violate("C07/logged-write-lost", "%s: message %d (cell %d, series %s) was appended to the log before the crash and is neither in the flushed data nor replayed", when, i, n, h.cellSeries(n))
+				return
+			case ok && v != 1:
+				c.Violate("C07/value-wrong", "%s: message %d cell %d reads %v", when, i, n, v)
+				return
+			}
+		}
+	}
+	c.Sim.Probe("cells-checked")
+}
+
+func (h *c07) crashNow(what string) {
+	if h.dead {
+		return
+	}
+	h.dead = true
+	h.sim.Fault("crash@" + what)
+	h.sim.Event("process death at %s", what)
+	h.sim.Kill(h.inc)
+}
+
+func runC07(c *core.RunCtx) {
+	sim := c.Sim
+	h := &c07{c: c, sim: sim, db: "w" + NewTag(), nser: c.Plan.C("nseries", 3),
+		crashFS: float64(c.Plan.C("crash_fs_pm", 0)) / 1000, crashY: float64(c.Plan.C("crash_y_pm10", 0)) / 10000}
+	pre := func(op, path string) {
+		if !h.armed || h.dead || sim.CurInc() != h.inc {
+			return
+		}
+		if sim.Tape.Chance(h.crashFS) {
+			sim.Event("file-system operation %s %s", op, strings.TrimPrefix(path, c.Dir))
+			h.crashNow("fs-" + op)
+		}
+	}
+	kv.VerifSetFS(pre)
+	version.VerifSetFS(pre)
+	table.VerifSetFS(pre)
+	sim.OnYield = func(label string) {
+		if !h.armed || h.dead || h.crashY == 0 || sim.CurInc() != h.inc {
+			return
+		}
+		pkg := label
+		if i := strings.IndexByte(label, '.'); i > 0 {
+			pkg = label[:i]
+		}
+		switch pkg {
+		case "queue", "page", "replica", "tsdb", "memdb", "kv", "version", "index":
+		default:
+			return
+		}
+		p := h.crashY
+		if strings.Contains(label, "Ack") || strings.Contains(label, "Commit") || strings.Contains(label, "flushMemoryDatabase") || strings.Contains(label, "Sequence") {
+			p *= 20 // the order of commit, sequence record and acknowledgement is what the property is about
+		}
+		if sim.Tape.Chance(p) {
+			h.crashNow(pkg)
+		}
+	}
+	defer func() {
+		kv.VerifSetFS(nil)
+		version.VerifSetFS(nil)
+		table.VerifSetFS(nil)
+		sim.OnYield = nil
+	}()
+
+	next := 0
+	for incarnation := 0; incarnation < 6 && !c.Violated() && c.Res.Anomaly == ""; incarnation++ {
+		h.inc = sim.NewIncarnation()
+		h.dead = false
+		h.armed = false
+		finished := false
+		first := incarnation == 0
+		sim.SpawnIn(h.inc, fmt.Sprintf("node%d", incarnation), func() {
+			defer func() { finished = true }()
+			if !h.start(first) {
+				return
+			}
+			if !first {
+				h.check("after recovery")
+			}
+			for next < len(c.Plan.Ops) && !c.Violated() && c.Res.Anomaly == "" && !h.dead {
+				op := c.Plan.Ops[next]
+				next++
+				sim.Event("op %s", op.String())
+				h.armed = true
+				switch op.K {
+				case "append":
+					for i := int64(0); i < op.A && !h.dead; i++ {
+						b, m, err := h.message(int(op.B))
+						if err != nil {
+							c.Anomaly("message: %v", err)
+							return
+						}
+						h.msgs = append(h.msgs, m)
+						if err := h.part.WriteLog(b); err != nil {
+							c.Anomaly("WriteLog: %v", err)
+							return
+						}
+						m.acked = true
+					}
+				case "flush":
+					if db, ok := h.node.Engine.GetDatabase(h.db); ok {
+						sim.Fault("flush-request")
+						_ = db.Flush()
+					}
+				case "flushwait":
+					if db, ok := h.node.Engine.GetDatabase(h.db); ok {
+						sim.Fault("flush-request")
+						_ = db.Flush()
+						simrt.Sleep(time.Millisecond)
+						h.waitFlush()
+					}
+				case "gc":
+					sim.Fault("log-gc")
+					h.part.IsExpire() // Sync + GC of the log, as the manager's housekeeping task does
+				case "tick":
+					simrt.Sleep(time.Duration(op.A) * time.Millisecond)
+				case "check":
+					h.check("after " + op.String())
+				case "restart":
+					// clean shutdown in the order of the storage runtime: stop replication, close engine, close log
+					h.armed = false
+					sim.Fault("clean-restart")
+					// a shutdown that overlaps a running flush job is not what this property is about (and it
+					// can hang: dataFamily.Close waits for the flush while holding the lock the flush needs)
+					h.waitFlush()
+					h.walMgr.Stop()
+					h.node.Engine.Close()
+					_ = h.walMgr.Close()
+					h.cancel()
+					if !h.start(false) {
+						return
+					}
+					h.check("after clean restart")
+				}
+				h.armed = false
+			}
+			if !h.dead && !c.Violated() && c.Res.Anomaly == "" {
+				h.check("at the end")
+			}
+		})
+		sim.Await(func() bool { return finished || h.dead })
+		if !h.dead {
+			break
+		}
+		if h.cancel != nil {
+			h.cancel()
+		}
+		simrt.Sleep(time.Millisecond)
+	}
+}
